@@ -7,8 +7,9 @@ Open Scope N_scope.
    schedule (one eventfd write, eventfd read, Arc count change or poll per step), the invariant holds: the counter
    encodes exactly the pings written since the last drain plus the close marker; the strong count is the number of
    handles alive; the close marker is written at most once and only when no handle is left; the source is removed only by
-   a drain that saw the marker. *)
-Theorem C03_invariant : forall progs nd sched, Forall (fun p => wf_prog 1 p = true) progs -> cinv (cp_run progs nd sched).
+   a drain that saw the marker. `cbp` callbacks ping their own source from inside the callback (through a handle the
+   callback owns): such a ping, and pings of other threads landing while the callback runs, are counted like any other. *)
+Theorem C03_invariant : forall progs nd cbp sched, Forall (fun p => wf_prog 1 p = true) progs -> cinv (cp_run progs nd cbp sched).
 Proof. exact cinv_run. Qed.
 Theorem C03_step_preserves : forall s k, cinv s -> cinv (cp_step s k).
 Proof. exact cinv_step. Qed.
@@ -33,6 +34,6 @@ Theorem C03_quiet_after_removal : forall s, cinv s -> registered s = false ->
 Proof. exact quiet_after_removal. Qed.
 
 Example C03_nonvacuous :
-  let s := cp_run [[PPing; PDrop]; [PClone; PPing; PDrop; PDrop]] 3 [1; 1; 2; 2; 2; 2; 2; 0; 0]%nat in
+  let s := cp_run [[PPing; PDrop]; [PClone; PPing; PDrop; PDrop]] 3 0 [1; 1; 2; 2; 2; 2; 2; 0; 0]%nat in
   Forall (fun p => wf_prog 1 p = true) [[PPing; PDrop]; [PClone; PPing; PDrop; PDrop]] /\ registered s = false /\ ctr s = 0.
 Proof. vm_compute. repeat split; repeat constructor. Qed.
